@@ -14,10 +14,10 @@ META = {
   text="Proof by contracts: parseHeader, getSectionName, the length-driven sections, the dispatch (sectionFun), each content-driven section's "
        "consumption (EH/MT/LP/SRC/callout units) and the parsePEL section loop (inductive invariant: cursor == start of section k, "
        "section list == [name(id_j): value_j]) are discharged for all inputs. buildOutput's naming/numbering is decided by exhaustive "
-       "enumeration of all equality patterns of up to 7 sections (E) and sampled up to 253 (bounded) - a proof over symbolic names was "
+       "enumeration of all equality patterns of up to 9 sections (E; 11 in the thorough tier) and sampled up to 253 (bounded) - a proof over symbolic names was "
        "not attempted.",
   note="Trusted: pyvc's models of Python; the opaque spec functions linking layers (section value == toJSON of the class) are by name. "
-       "buildOutput for > 7 sections is bounded only.",
+       "buildOutput for > 9 (11) sections is bounded only.",
   assumptions=["well-formed = every section's content is decodable and consumes exactly sectionLen bytes (shape-from-code lengths pinned "
                "in contracts/pelcore.body_len)"]),
  'C02': dict(
@@ -75,9 +75,12 @@ META = {
   text="Directories of ANY size: getFileList == sorted(FILT(n), reverse) with FILT the top-level names that pass the extension filter (loop "
        "invariant; top level only); -n, -l, -a by per-file loop invariants over recursively defined COUNT/SUM/OUT, all three built from one "
        "selection predicate and the same file list, so count == list entries == documents, same PELs, same order. Additionally getFileList for "
-       "0..3 names with an abstract total order (ascending, exact reverse) and the modes over 0..2 files incl. stderr obligations.",
-  note="list.sort on a symbolic-length list is an assumed contract (sorted rearrangement; exact reverse for distinct names); the equality of "
-       "list-entry fields with the full decode and options through the real CLI are a bounded companion.",
+       "0..3 names with an abstract total order (ascending, exact reverse) and the modes over 0..2 files incl. stderr obligations. "
+       "parsePELSummary (real body, section loop by invariant): key == PH entry id; SRC/Message from the FIRST primary SRC section's document; "
+       "PLID, CreatorID, Subsystem, Commit Time, Sev, CompID are the same spec terms as the fields of the full decode (parsePEL unit).",
+  note="list.sort on a symbolic-length list is an assumed contract (sorted rearrangement; exact reverse for distinct names). The key lists of "
+       "the PH/UH/SRC documents read by the summary are preconditions here, proved in the C02/C03 units. Options through the real CLI are a "
+       "bounded companion.",
   assumptions=[FS_A, "distinct entry ids"]),
  'C09': dict(
   level='proof',
